@@ -133,7 +133,7 @@ func storageSources(p *an.Prog) (ifaceMethods map[*types.Func]bool, fns map[*ssa
 						}
 					}
 				}
-				walk(r.Results[idx], 0)
+				walk(an.RetOperand(r, idx), 0)
 			}
 			if found {
 				fns[f] = true
